@@ -114,6 +114,13 @@ def flags(repo):
     shared_dest = bool(m_sd) and 0 <= i_skip < m_sd.start() and (i_exists < 0 or m_sd.start() < i_exists)
     if ("insert(&rename.new_path" in apply_fn) != shared_dest:
         common.log("translate/execflags: apply_plan's pre-flight fills a destination map in a way the model has no variant for")
+    # scanner.rs::write_plan: is an existing plan file REPLACED (File::create / truncate(true)) or written over in place?
+    wp = strip_comments(fn_body(rd("scanner.rs"), r"pub fn write_plan\(plan: &Plan, path: &Path\)\s*->\s*Result<\(\)>\s*\{", "write_plan"))
+    plan_truncates = "File::create(path)" in wp or bool(re.search(r"\.truncate\(\s*true\s*\)", wp))
+    if not plan_truncates and "OpenOptions" not in wp and "fs::write(" not in wp:
+        raise RuntimeError("translate/execflags: write_plan opens the plan file in a way the model does not know")
+    if "fs::write(" in wp:
+        plan_truncates = True
     per_pid = bool(re.search(r"with_extension\(\s*format!\(\s*\"\{\}\.renamify\.tmp\"\s*,\s*std::process::id\(\)\s*\)\s*\)", edit))
     fixed = ("temp_sibling(" in edit) or bool(re.search(r"with_extension\(\s*\"renamify\.tmp\"\s*\)", edit))
     if per_pid == fixed:
@@ -128,6 +135,7 @@ def flags(repo):
         "tempCleanupOnlyOwn": bool(re.search(r"if\s+temp_created\s*\{[^}]*remove_file", edit, re.S)),
         "dupIdRefusedUpFront": dup_up_front,
         "sharedDestRefused": shared_dest,
+        "planWriteTruncates": plan_truncates,
         "rollbackRealPairs": "renames_executed" in rollback_fn,
         "logErrorsIgnored": "?;" not in log_fn,
         "historyEntryIsCommitPoint": late_rollback,
@@ -160,6 +168,7 @@ DOC = {
                            "(`if History::load(renamify_dir)?.find_entry(&plan.id).is_some()` ahead of ApplyState::new)",
     "sharedDestRefused": "apply_plan's pre-flight refuses a plan in which two renames with different sources share a destination "
                          "(checked per rename after the skip test and before the exists test)",
+    "planWriteTruncates": "scanner.rs::write_plan replaces an existing plan file (File::create / truncate(true)) instead of writing over it in place",
     "rollbackRealPairs": "apply.rs::rollback reverts the renames with the paths they were executed with (renames_executed)",
     "logErrorsIgnored": "ApplyState::log drops a line it cannot write instead of propagating the error",
     "historyEntryIsCommitPoint": "apply_plan: patches, stored plan (removed on failure), history entry last; a failure rolls the renames back",
